@@ -2,6 +2,7 @@ package cluster
 
 import (
 	"fmt"
+	cstypes "github.com/lianxiangcloud/linkchain/consensus/types"
 	"math/big"
 	"os"
 	"sort"
@@ -124,6 +125,17 @@ func (cl *Cluster) finish() {
 		switch {
 		case stuck < 0:
 			c.Probe("progress-after-byz-turn")
+		case cl.anyLeftCommitStep():
+			// The stuck node learned the decision (+2/3 precommits for a block in
+			// round r), entered the commit step to wait for the block, and then left
+			// it again: +2/3 nil precommits of round r+1 (legal: locked validators
+			// that have not seen the round-r majority yet precommit nil) make addVote
+			// call enterNewRound(r+2), whose guard does not know the commit step.
+			// From then on the block's parts are ignored (tryFinalizeCommit runs only
+			// in the commit step) and the node never commits: a liveness defect that
+			// needs no Byzantine proposer and no hostile peer, outside the statements
+			// of C02 and C16 (DESIGN.md, section 11). Not attributed here.
+			c.Probe("stuck-after-leaving-commit-step-not-judged")
 		case cl.recoverSeen:
 			// Recover mode can deadlock without any Byzantine help: locks taken
 			// before the switch survive it, while the locked block (Recover=0) can
@@ -154,6 +166,8 @@ func (cl *Cluster) finish() {
 		switch {
 		case stuck < 0:
 			c.Probe("progress-after-hostile-traffic")
+		case cl.anyLeftCommitStep():
+			c.Probe("stuck-after-leaving-commit-step-not-judged") // see the validation mode above
 		case cl.recoverSeen:
 			c.Probe("stuck-in-recover-mode-not-judged") // see the validation mode above
 		case cl.now-since >= 90*time.Second:
@@ -255,4 +269,19 @@ func (cl *Cluster) proposerCheck() {
 			c.Probe("byzantine-fault-validators-evidence-rejected")
 		}
 	}
+}
+
+// anyLeftCommitStep: some correct node knows a commit round for its current
+// height but is not in the commit step (see finish); the others may be stuck
+// merely because they need that node's power.
+func (cl *Cluster) anyLeftCommitStep() bool {
+	for _, n := range cl.honest() {
+		if n.cs == nil || !n.alive || n.failed {
+			continue
+		}
+		if rs := n.roundState(); rs.CommitRound >= 0 && rs.Step < cstypes.RoundStepCommit {
+			return true
+		}
+	}
+	return false
 }
